@@ -256,7 +256,7 @@ def check_case(case, acc):
                 level = nxt
                 if len(problems) > 30:
                     break
-        acc.bulk(nstates, "derived-objects")
+        acc.subcases(case, nstates, True, "derived-objects")
     except Exception as e:
         problems.append(("design-exists", f"{d!r} raised {type(e).__name__}: {e} @ {exc_sig(e)}"))
     finally:
